@@ -39,8 +39,8 @@ import (
 )
 
 const ruleStore = "store: round j = one history of the real BlobAccessMutableProtoStore over a gated/failing fake ISCC, from PRNG(seed, 3, j): " +
-	"stepped schedule templates {dirty-release-during-write, overlapping-writes, read-racing-destruction, write-failure-retry, cancelled-write, queue-churn} " +
-	"with PRNG-chosen variants, and concurrent stress rounds (3-8 clients, 2-3 digests, injected Put/Get failures and delays, GOMAXPROCS varied); " +
+	"stepped schedule templates {dirty-release-during-write, overlapping-writes, read-racing-destruction (one or two racing readers), write-failure-retry, cancelled-write, queue-churn, get-fails-with-existing-handle, release-orders (3 holders x every order x every dirty mask, enumerated), long-queue (more than 3 queued)} " +
+	"with PRNG-chosen variants, and concurrent stress rounds (3-8 clients, 2-3 of 5 digests, injected Put/Get failures and delays, GOMAXPROCS varied); " +
 	"non-trivial = a dirty release happened while a write of the same digest was in flight, a write failed and was retried, or a Get raced a handle's destruction; " +
 	"distinct = hash of the per-digest applied Put sequences relative to the append order plus the store-level event order"
 
@@ -593,6 +593,7 @@ func describeOps(ops []porcupine.Operation) []string {
 var storeSchedules = []string{
 	"dirty-release-during-write", "overlapping-writes", "read-racing-destruction",
 	"write-failure-retry", "cancelled-write", "queue-churn", "stress",
+	"get-fails-with-existing-handle", "release-orders", "long-queue",
 }
 
 func (rd *storeRound) pickOutcome() opOutcome {
@@ -739,7 +740,18 @@ func (rd *storeRound) readRacingDestruction() {
 	if rng.IntN(4) == 0 {
 		readOutcome = outFail
 	}
+	// A second reader of the same digest, parked as well; the two reads
+	// complete in either order and the second may fail too.
+	twoReaders := rng.IntN(3) == 0
+	secondFirst := rng.IntN(2) == 0
+	secondOutcome := outOK
+	if rng.IntN(3) == 0 {
+		secondOutcome = outFail
+	}
 	rd.variant = fmt.Sprintf("read-linearized-at-arrival=%v handle-destroyed-before-read-returns=%v read=%s", early, destroy, readOutcome)
+	if twoReaders {
+		rd.variant += fmt.Sprintf(" second-reader=%s second-completes-first=%v", secondOutcome, secondFirst)
+	}
 
 	gr := rd.gateGet(A, early)
 	p1 := rd.goGet(1, A)
@@ -747,19 +759,41 @@ func (rd *storeRound) readRacingDestruction() {
 		p1.wait(rd)
 		return
 	}
-	rd.use(2, A, true) // second handle: the first is not registered yet
+	var gr2 *gate
+	var p2 *pendingGet
+	if twoReaders {
+		gr2 = rd.gateGet(A, early)
+		p2 = rd.goGet(5, A)
+		if !rd.await(gr2, p2) {
+			p2.wait(rd)
+			p2 = nil
+		} else {
+			rd.sit("two-reads-of-one-digest-in-flight")
+		}
+	}
+	rd.use(2, A, true) // another handle: the parked readers' are not registered yet
 	if destroy {
-		rd.use(3, rd.fresh(), false) // writes A; its handle is destroyed
+		rd.use(3, rd.fresh(), false) // writes A; its handle is destroyed (or kept for the readers)
 		rd.sit("get-racing-handle-destruction")
 	} else {
 		rd.sit("get-racing-handle-creation")
 	}
-	rd.releaseGate(gr, A, readOutcome)
-	if hh, err := p1.wait(rd); err == nil && hh != nil {
-		hh.view(true)
-		hh.release()
-	} else {
-		rd.sit("racing-read-failed")
+	finish := func(g *gate, p *pendingGet, o opOutcome) {
+		rd.releaseGate(g, A, o)
+		if hh, err := p.wait(rd); err == nil && hh != nil {
+			hh.view(true)
+			hh.release()
+		} else {
+			rd.sit("racing-read-failed")
+		}
+	}
+	if p2 != nil && secondFirst {
+		finish(gr2, p2, secondOutcome)
+		p2 = nil
+	}
+	finish(gr, p1, readOutcome)
+	if p2 != nil {
+		finish(gr2, p2, secondOutcome)
 	}
 }
 
@@ -770,10 +804,7 @@ func (rd *storeRound) writeFailureRetry() {
 	n := 1 + rng.IntN(3)
 	failures := 1 + rng.IntN(3)
 	rd.variant = fmt.Sprintf("digests=%d failures=%d", n, failures)
-	for i := 0; i < n; i++ {
-		rd.maybePreload(i)
-		rd.use(1, rd.dig(i), true)
-	}
+	rd.dirtyAll(n)
 	for f := 0; f < failures; f++ {
 		i := rng.IntN(n)
 		o := []opOutcome{outFail, outFailAfterApply}[rng.IntN(2)]
@@ -863,6 +894,172 @@ func (rd *storeRound) queueChurn() {
 	}
 }
 
+// getFailsWithExistingHandle: a Get for a digest whose handle already
+// exists fails because the write of ANOTHER handle, started by the same Get,
+// fails. The use count taken by the failed Get must be given back: the
+// handle may be dirty, queued before, or held by somebody else.
+func (rd *storeRound) getFailsWithExistingHandle() {
+	rng := rd.rng
+	A, B := rd.dig(0), rd.dig(1)
+	rd.maybePreload(0)
+	rd.maybePreload(1)
+	heldByOther := rng.IntN(2) == 0
+	aDirty := rng.IntN(3) != 0
+	o := []opOutcome{outFail, outFailAfterApply}[rng.IntN(2)]
+	repeats := 1 + rng.IntN(2)
+	rd.variant = fmt.Sprintf("held-by-other=%v existing-handle-dirty=%v failure=%s repeats=%d", heldByOther, aDirty, o, repeats)
+
+	// Every Get writes back what is queued, so B's handle is obtained
+	// first and released (dirty) last: only then are A and B queued
+	// together.
+	hB, err := rd.get(1, B)
+	if err != nil {
+		return
+	}
+	var h0 *heldHandle
+	if aDirty {
+		rd.use(1, A, true)
+	}
+	if heldByOther || !aDirty {
+		// Without a holder a clean handle would not exist at all.
+		h0, _ = rd.get(2, A)
+	}
+	hB.view(true)
+	hB.release()
+	for i := 0; i < repeats; i++ {
+		rd.failNext("put", B, o)
+		if hh, err := rd.get(3, A); err != nil {
+			rd.sit("get-failed-with-existing-handle")
+			rd.sit("write-failed")
+		} else {
+			rd.sit("template-gate-not-reached")
+			hh.release()
+		}
+	}
+	if h0 != nil {
+		h0.view(rng.IntN(2) == 0)
+		h0.release()
+	}
+	if rng.IntN(2) == 0 {
+		rd.use(4, A, true)
+	}
+}
+
+var releaseOrderPerms = [][3]int{{0, 1, 2}, {0, 2, 1}, {1, 0, 2}, {1, 2, 0}, {2, 0, 1}, {2, 1, 0}}
+
+// releaseOrderCombos records which (order, dirty mask, write in flight)
+// combinations ran (driver goroutine only).
+var releaseOrderCombos = map[string]bool{}
+
+// releaseOrders: three holders of the same handle, each dirty or clean,
+// released in every order; enumerated by the round number, not drawn, so
+// that every combination occurs. Optionally a write of the previous version
+// of the handle is in flight meanwhile and completes after the second
+// release.
+func (rd *storeRound) releaseOrders() {
+	t := rd.idx / len(storeSchedules)
+	perm := releaseOrderPerms[t%6]
+	mask := (t / 6) % 8
+	inflight := (t/48)%2 == 1
+	outcome := outOK
+	if inflight {
+		outcome = rd.pickOutcome()
+	}
+	rd.variant = fmt.Sprintf("order=%v dirty-mask=%03b write-in-flight=%v outcome=%s", perm, mask, inflight, outcome)
+	releaseOrderCombos[fmt.Sprintf("%v/%d", perm, mask)] = true
+	A := rd.dig(0)
+	rd.maybePreload(0)
+
+	var g *gate
+	var p *pendingGet
+	held := false
+	if inflight {
+		rd.use(1, A, true)
+		g = rd.gatePut(A)
+		p = rd.goGet(2, rd.fresh())
+		held = rd.await(g, p)
+	}
+	var hs [3]*heldHandle
+	for i := range hs {
+		hs[i], _ = rd.get(10+i, A)
+	}
+	for i, hh := range hs {
+		if hh != nil {
+			hh.view(mask&(1<<i) != 0)
+		}
+	}
+	for n, i := range perm {
+		if hs[i] != nil {
+			hs[i].release()
+		}
+		if n == 1 && inflight {
+			if held {
+				rd.releaseGate(g, A, outcome)
+				if outcome != outOK {
+					rd.sit("write-failed")
+				}
+			}
+			if hh, err := p.wait(rd); err == nil && hh != nil {
+				hh.release()
+			}
+		}
+	}
+	rd.sit("release-order-combo")
+	if mask != 0 && mask&(1<<perm[2]) == 0 {
+		rd.sit("clean-release-last-after-dirty-release")
+	}
+}
+
+// dirtyAll updates the first n digests such that all n handles are queued
+// for writing at the same time. Every Get writes back what is queued, so
+// all handles are obtained before the first one is released.
+func (rd *storeRound) dirtyAll(n int) {
+	var hs []*heldHandle
+	for i := 0; i < n; i++ {
+		rd.maybePreload(i)
+		if hh, err := rd.get(1, rd.dig(i)); err == nil {
+			hs = append(hs, hh)
+		}
+	}
+	for _, hh := range hs {
+		hh.view(true)
+		hh.release()
+	}
+}
+
+// longQueue: more handles are queued than one Get writes back (three), one
+// of the writes may fail, a queued handle is re-obtained from the middle of
+// the queue, and the rest must still be written by later Gets.
+func (rd *storeRound) longQueue() {
+	rng := rd.rng
+	n := 4 + rng.IntN(2)
+	failOne := rng.IntN(2) == 0
+	reobtain := rng.IntN(2) == 0
+	rd.variant = fmt.Sprintf("queued=%d fail-one=%v re-obtain-queued=%v", n, failOne, reobtain)
+	rd.dirtyAll(n)
+	if failOne {
+		rd.failNext("put", rd.dig(rng.IntN(n)), []opOutcome{outFail, outFailAfterApply}[rng.IntN(2)])
+	}
+	before := rd.fake.putCalls.Load()
+	var err error
+	if reobtain {
+		// Taken out of the middle of the queue (the first digest sits at
+		// the bottom); the same Get writes back three others.
+		err = rd.use(2, rd.dig(rng.IntN(n-1)), rng.IntN(2) == 0)
+	} else {
+		err = rd.use(3, rd.fresh(), false)
+	}
+	if err != nil {
+		rd.sit("write-failed")
+	}
+	if rd.fake.putCalls.Load()-before == 3 {
+		rd.sit("queue-longer-than-one-get-writes")
+	}
+	if rng.IntN(2) == 0 {
+		rd.use(4, rd.dig(rng.IntN(n)), true)
+	}
+}
+
 // stress: truly concurrent clients; the fake delays and fails calls by PRNG.
 func (rd *storeRound) stress() {
 	rng := rd.rng
@@ -943,7 +1140,7 @@ func runStoreRound(r *ev.Run, j int, schedule string) bool {
 		preloaded: map[string][]int64{},
 		sits:      map[string]int{},
 	}
-	for i := 0; i < 3; i++ {
+	for i := 0; i < 5; i++ {
 		rd.digs = append(rd.digs, mkDigest(j, i))
 	}
 	rd.store = re_blobstore.NewBlobAccessMutableProtoStore[iscc.PreviousExecutionStats](rd.fake, 1<<20)
@@ -964,6 +1161,12 @@ func runStoreRound(r *ev.Run, j int, schedule string) bool {
 		rd.cancelledWrite()
 	case "queue-churn":
 		rd.queueChurn()
+	case "get-fails-with-existing-handle":
+		rd.getFailsWithExistingHandle()
+	case "release-orders":
+		rd.releaseOrders()
+	case "long-queue":
+		rd.longQueue()
 	default:
 		rd.stress()
 	}
@@ -987,7 +1190,8 @@ func runStoreRound(r *ev.Run, j int, schedule string) bool {
 		r.SituationN(k, v)
 		switch k {
 		case "store:dirty-release-during-write-in-flight", "store:update-during-write-in-flight", "store:write-failed",
-			"store:get-racing-handle-destruction", "store:write-cancelled-by-failed-read", "store:two-writes-of-one-digest-in-flight", "store:next-get-while-write-in-flight-and-handle-dirty":
+			"store:get-racing-handle-destruction", "store:write-cancelled-by-failed-read", "store:two-writes-of-one-digest-in-flight", "store:next-get-while-write-in-flight-and-handle-dirty",
+			"store:get-failed-with-existing-handle", "store:release-order-combo", "store:queue-longer-than-one-get-writes", "store:two-reads-of-one-digest-in-flight":
 			nontrivial = true
 		}
 	}
@@ -1027,12 +1231,19 @@ func runStore(r *ev.Run) {
 	r.Assume("store: the ISCC backend is linearizable (each Put/Get takes effect at one point between call and return); a failed Put may or may not have been stored")
 	r.Assume("store: clients follow the MutableProtoStore contract: Get without locks, every handle method under one global mutex, Release(true) iff the message was modified")
 	r.Assume("store: 'eventually written' is judged as: after faults stop, Gets on fresh digests until one causes no write (at most 30); the Prometheus counters of the store are process-global, so no other user of BlobAccessMutableProtoStore may run concurrently with this monitor")
-	total := r.Pick(420, 4200)
+	total := r.Pick(600, 6000)
 	for j := 0; j < total; j++ {
 		if !runStoreRound(r, j, scheduleOf(j)) {
 			return
 		}
 	}
+	r.SituationN("store:release-order-combos-distinct", len(releaseOrderCombos))
+	r.Floor("store:release-order-combos-distinct", 48)
+	r.Floor("store:clean-release-last-after-dirty-release", 10)
+	r.Floor("store:get-failed-with-existing-handle", 40)
+	r.Floor("store:queue-longer-than-one-get-writes", 30)
+	r.Floor("store:two-reads-of-one-digest-in-flight", 8)
+	r.Floor("store:racing-read-failed", 8)
 	r.Floor("store:dirty-release-during-write-in-flight", 40)
 	r.Floor("store:update-during-write-in-flight", 40)
 	r.Floor("store:write-failed", 40)
